@@ -22,28 +22,32 @@ from vmon.models import editor_ref as R
 PROPERTY = "C10"
 LEVEL = "exploration"
 SHARDS = {"quick": 8, "thorough": 16}
-BUDGET = {"quick": 26.0, "thorough": 400.0}
+BUDGET = {"quick": 22.0, "thorough": 380.0}
 REQUIRE = {
-    "ops_applied": 20000,
-    "oracle:text_pos_equal": 20000,
-    "oracle:pos_on_boundary": 20000,
-    "oracle:cursor_cell": 3000,
+    "ops_applied": 5000,
+    "oracle:text_pos_equal": 3000,
+    "oracle:pos_on_boundary": 5000,
+    "oracle:cursor_cell": 2500,
     "oracle:cursor_cell_content": 1500,
     "oracle:click_on_char_cell": 300,
-    "oracle:signals_on_modification": 3000,
-    "oracle:signals_none_on_noop": 3000,
-    "oracle:unused_key_returned": 300,
-    "oracle:numeric_alphabet": 2000,
-    "oracle:updown_judged": 1000,
-    "oracle:homeend_judged": 500,
-    "class:IntEdit": 50,
-    "class:IntegerEdit": 50,
-    "class:FloatEdit": 50,
-    "mode:utf8": 100,
-    "mode:wide": 100,
-    "mode:narrow": 100,
+    "oracle:signals_on_modification": 800,
+    "oracle:signals_none_on_noop": 2000,
+    "oracle:pos_valid_inside_handler": 1000,
+    "oracle:unused_key_returned": 250,
+    "oracle:numeric_alphabet": 300,
+    "oracle:numeric_value": 250,
+    "oracle:updown_judged": 100,
+    "oracle:homeend_judged": 200,
+    "class:IntEdit": 5,
+    "class:IntegerEdit": 5,
+    "class:FloatEdit": 5,
+    "mode:utf8": 8,
+    "mode:wide": 8,
+    "mode:narrow": 8,
     "mode:str": 100,
-    "view_shifted_observations": 100,
+    "view_shifted_observations": 500,
+    "sweep_sessions": 40,
+    "random_sessions": 80,
 }
 RULE = (
     "a case = one session descriptor (class, encoding utf-8/euc-jp/ascii, str|bytes, caption, text, width 1..20, "
@@ -101,7 +105,7 @@ def _encodable(ch, enc):
 
 
 ALPHA = {enc: {k: "".join(c for c in v if _encodable(c, enc)) for k, v in d.items()} for enc, d in _ALPHA_RAW.items()}
-NUM_ODD_KEYS = ["ı", "ſ", "ﬆ", "５", "²", "٣", "-", ".", ",", " ", "+", "e", "E", "x", "g", "G", "z", "Z", "a", "F", "f", "7", "8", "9", "0", "0", "1", "2"]
+NUM_ODD_KEYS = ["ı", "ſ", "ﬆ", "５", "²", "٣", "-", "-", "-", ".", ",", " ", "+", "e", "E", "x", "g", "G", "z", "Z", "a", "F", "f", "7", "8", "9", "0", "0", "1", "2"]
 
 
 # ------------------------------------------------------------------ generators
@@ -310,6 +314,7 @@ class Session:
         self.siglog = []
         self.judged = 0
         self.flag_stale = False
+        self.memo = self.memo2 = None
         self.numeric = None
         self.sigbase = f"C10|{self.cls}"
         self.opname = "init"
@@ -388,6 +393,18 @@ class Session:
 
     def fresh(self, focus):
         """layout reported by a fresh Edit with the model's state; returns (trans, rows|None)"""
+        d, m = self.desc, self.model
+        key = (bool(focus), m.text, m.pos, self.size)
+        if self.memo and self.memo[0] == key:
+            return self.memo[1]
+        if self.memo2 and self.memo2[0] == key:
+            return self.memo2[1]
+        res = self._fresh(focus)
+        self.memo2 = self.memo
+        self.memo = (key, res)
+        return res
+
+    def _fresh(self, focus):
         d, m = self.desc, self.model
         try:
             twin = self.u.Edit(self.caption, m.text, multiline=d["multiline"], align=d["align"], wrap=d["wrap"], edit_pos=m.pos, mask=self.mask)
@@ -539,6 +556,8 @@ class Session:
         if not match:
             if not any(oc.text == t for oc in ocs):
                 kind = "text-mismatch"
+                if self.opname == "char":
+                    kind += "|key=" + ("ascii" if self.lastkey.isascii() else "non-ascii")
             else:
                 kind = "pos-mismatch"
                 exp = {oc.pos for oc in ocs if oc.text == t}
@@ -549,9 +568,11 @@ class Session:
                         kind += "|moved-but-should-not"
                     else:
                         kind += "|wrong-target"
-                    kind += f"|view-shifted={self.view_shifted()}"
                     if self.opname == "click" and self.flag_stale:
-                        kind += "|widget-view-flag-stale-after-cached-render"
+                        # one mechanism whatever the direction of the error
+                        kind = "pos-mismatch|widget-view-flag-stale-after-cached-render"
+                    else:
+                        kind += f"|view-shifted={self.view_shifted()}"
             self.viol(
                 kind,
                 f"{opdesc} from text={m.text!r} pos={m.pos} prefs={m.prefs and set(m.prefs)}: widget text={t!r} pos={p} ret={ret!r}; model accepts {ocs!r}",
@@ -596,6 +617,7 @@ class Session:
         self.siglog.clear()
         if kind == "char" or kind == "key":
             key = op[1]
+            self.lastkey = key
             self.opname = "char" if kind == "char" else (key if key in R.USED_KEYS else "unused-key")
             sink.count(f"op:{self.opname}")
             rows = None
@@ -646,8 +668,9 @@ class Session:
                 self.check_unchanged("render")
         elif kind == "resize":
             self.opname = "resize"
-            self.size = (op[1],)
-            self.model.prefs = frozenset([None])
+            if (op[1],) != self.size:
+                self.size = (op[1],)
+                self.model.prefs = frozenset([None])  # preferred column belongs to a width
         elif kind == "set":
             self.opname = "set"
             off = len(self.conv(self.desc["text"][: op[1]])) if self.cls == "Edit" else min(op[1], len(self.init_text))
@@ -760,7 +783,7 @@ class Session:
                 self.observe()
             for i, op in enumerate(self.desc["ops"]):
                 self.step(op)
-                if op[0] in ("char", "key", "click", "set") and (i + 1) % obs == 0:
+                if op[0] in ("char", "key", "click") and (i + 1) % obs == 0:
                     self.observe()
         except Abort:
             sink.count("sessions_aborted_after_violation")
@@ -895,6 +918,9 @@ def sweep_desc(cfg, pos, flags):
 # ------------------------------------------------------------------ driver
 
 
+KNOWN: dict = {}
+
+
 def execute(ctx, desc, seen_sigs):
     sink = Sink()
     judged = run_session(desc, sink)
@@ -915,8 +941,9 @@ def execute(ctx, desc, seen_sigs):
         n = seen_sigs.get(sig, 0)
         seen_sigs[sig] = n + 1
         wit = desc
-        if n < 3 and not ctx.replaying:
-            wit = shrink(desc, sig)
+        # shrink the first witness of an unlisted signature (known findings already carry a minimal witness)
+        if n < 2 and sig not in KNOWN and not ctx.replaying and ctx.time_left() > -15:
+            wit = shrink(desc, sig, budget=250)
             if wit is not desc:
                 s2 = Sink()
                 run_session(wit, s2)
@@ -957,6 +984,10 @@ def run(ctx):
     )
     seen = {}
     rng = ctx.rng
+    from vmon import core
+
+    KNOWN.clear()
+    KNOWN.update(core.load_findings(PROPERTY))
     try:
         # (a) depth-1 sweep
         idx = 0
